@@ -487,3 +487,153 @@ func TestWaitApi(t *testing.T) {
 	vh.WriteJSON(filepath.Join(out, "wait_api.json"), sum)
 	_ = simnet.Deliver
 }
+
+// TestAcceptScripts executes TLC-generated scripts of AcceptWait.tla (and enumerated ones) on a real Listener in virtual time:
+// goroutines blocked in AcceptKCP, new peers connecting, the listener's deadline being set / changed / cleared, Close, a socket
+// read error, time passing. What every Accept returned and when, and who is still blocked at every tick, is recorded for the
+// AcceptObs monitors and for validation against the model (AcceptTrace).
+func TestAcceptScripts(t *testing.T) {
+	in := vh.EnvStr("VERIF_IN", "")
+	if in == "" {
+		t.Skip("VERIF_IN not set")
+	}
+	out := vh.OutDir(t)
+	scripts, err := readScripts(filepath.Join(in, "accept_scripts.ndjson"))
+	vh.Must(err)
+	tf, err := vh.OpenTraceFile(filepath.Join(out, "accept_scripts.ndjson"))
+	vh.Must(err)
+	sum := &summary{Kinds: map[string]int{}}
+	for i, s := range scripts {
+		vh.Bubble(t, 4711, 2, func(e *vh.Env) {
+			tr := &vh.Trace{}
+			lc, _ := e.Hub.Listen("10.0.0.1:1000")
+			l, err := kcp.ServeConn(nil, 0, 0, lc)
+			vh.Must(err)
+			start := time.Now()
+			nowU := func() int { return int(time.Since(start) / unit) }
+			type ares struct {
+				x    string
+				kind string
+				t    int
+				s    *kcp.UDPSession
+			}
+			results := make(chan ares, 16)
+			startedAt, dle := map[string]int{}, map[string]int{}
+			changed, blockedNow := map[string]bool{}, map[string]bool{}
+			var accepted []*kcp.UDPSession
+			var clients []*kcp.UDPSession
+			var cconns []interface{ Close() error }
+			dl, closed, serr, peers := 0, false, false, 0
+			harvest := func() {
+				synctest.Wait()
+				for {
+					select {
+					case r := <-results:
+						delete(blockedNow, r.x)
+						if r.s != nil {
+							accepted = append(accepted, r.s)
+						}
+						tr.Add(map[string]any{"ev": "ret", "x": r.x, "res": r.kind, "t": r.t, "st": startedAt[r.x], "dle": dle[r.x], "changed": changed[r.x]})
+						sum.Kinds["accept-"+r.kind]++
+					default:
+						return
+					}
+				}
+			}
+			anyChanged := func() bool {
+				for x := range blockedNow {
+					if changed[x] {
+						return true
+					}
+				}
+				return false
+			}
+			for _, st := range s.Steps {
+				sum.Steps++
+				switch st.Ev {
+				case "start":
+					x := st.X
+					startedAt[x], dle[x], changed[x], blockedNow[x] = nowU(), dl, false, true
+					tr.Add(map[string]any{"ev": "start", "x": x})
+					go func() {
+						sess, err := l.AcceptKCP()
+						results <- ares{x, kindOf(err), nowU(), sess}
+					}()
+				case "connect":
+					peers++
+					cc, _ := e.Hub.Listen(fmt.Sprintf("10.0.1.%d:2000", peers))
+					c, err := kcp.NewConn3(uint32(100+peers), lc.LocalAddr(), nil, 0, 0, cc)
+					vh.Must(err)
+					c.Write([]byte("x"))
+					clients = append(clients, c)
+					cconns = append(cconns, cc)
+					tr.Add(map[string]any{"ev": "connect"})
+				case "setdl":
+					tr.Add(map[string]any{"ev": "setdl", "v": st.V})
+					if st.V == 0 {
+						l.SetDeadline(time.Time{})
+					} else {
+						l.SetDeadline(start.Add(time.Duration(st.V) * unit))
+					}
+					dl = st.V
+					for x := range blockedNow {
+						changed[x] = true
+					}
+				case "close":
+					tr.Add(map[string]any{"ev": "close"})
+					l.Close()
+					closed = true
+				case "sockerr":
+					tr.Add(map[string]any{"ev": "sockerr"})
+					lc.FailReads(errors.New("simulated socket error"))
+					serr = true
+				case "tick":
+					time.Sleep(unit / 2)
+					harvest()
+					tr.Add(map[string]any{"ev": "tick", "now": nowU(), "blocked": len(blockedNow), "anychanged": anyChanged(), "dl": dl,
+						"backlog": l.VerifAcceptLen(), "closed": closed, "serr": serr})
+					time.Sleep(unit - unit/2)
+				}
+				harvest()
+			}
+			harvest()
+			for x := range blockedNow {
+				tr.Add(map[string]any{"ev": "blocked", "x": x})
+				sum.Kinds["blocked-at-end"]++
+			}
+			// release everything
+			for _, c := range clients {
+				c.Close()
+			}
+			for _, a := range accepted {
+				a.Close()
+			}
+			lc.Close()
+			for _, cc := range cconns {
+				cc.Close()
+			}
+			synctest.Wait()
+			l.Close()
+			synctest.Wait()
+			for len(blockedNow) > 0 {
+				r := <-results
+				delete(blockedNow, r.x)
+				if r.s != nil {
+					r.s.Close()
+				}
+			}
+			l.SetReadDeadline(time.Time{})
+			for k := 0; k < 100000 && l.VerifAcceptLen() > 0; k++ {
+				if a, err := l.AcceptKCP(); err == nil && a != nil {
+					a.Close()
+				}
+			}
+			tf.WriteTrace(map[string]any{"src": fmt.Sprintf("%s#%d", s.Src, i), "side": "listener", "callers": s.Callers}, tr)
+			sum.Scripts++
+			sum.Nontrivial++
+		})
+	}
+	vh.Must(tf.Close())
+	sum.Traces, sum.Lines = tf.N, tf.L
+	vh.WriteJSON(filepath.Join(out, "accept_scripts.json"), sum)
+}
